@@ -40,7 +40,7 @@ func Stats returns (err)
   requires @sink sc.ReporterConfig.Output != nil && !typeis(sc.ReporterConfig.Output, "*bufio.Writer") && !typeis(sc.ReporterConfig.Output, "*encoding/csv.Writer")
   calluse ParseFileCallback#1 stats1
   calluse ParseFileCallback#2 stats2
-  modifies ghost(cbLen, cbErr, cbNode, cbStop, cbRet, cbLineNo, cbLine, cbHeader, cbElems, cbNElems, scRd, scPos, privLo, evOf, accKey, accP, accN, accH, bufSink, bufSticky, sinkFailed, sinkPend, prLen, prSink, prArg, prArgs, tnodes, tdepth, tmax, tmapOf, lastOpen)
+  modifies ghost(cbLen, cbErr, cbNode, cbStop, cbRet, cbLineNo, cbLine, cbHeader, cbElems, cbNElems, scRd, scPos, privLo, evOf, accKey, accP, accN, accH, bufSink, bufSticky, sinkFailed, sinkPend, prLen, prSink, prArg, prArgs, csvLen, csvW, csvN, csvRow, tnodes, tdepth, tmax, tmapOf, lastOpen)
   let out := payload(sc.ReporterConfig.Output)
   let cc := sc.ParserConfig.CommentChar
   ghost after call 1 ParseFileCallback { let logf := lastOpen }
